@@ -69,6 +69,12 @@ theorem foldl_bind_panic (es : List Edit) :
   | nil => rfl
   | cons e t ih => simpa [Outcome.bind] using ih
 
+theorem foldl_bind_fatal (es : List Edit) :
+    es.foldl (fun acc e => Outcome.bind acc e) Outcome.fatal = Outcome.fatal := by
+  induction es with
+  | nil => rfl
+  | cons e t ih => simpa [Outcome.bind] using ih
+
 /-- `ChainWorkers`: the first worker, then the rest on its result; a failure ends the chain -/
 theorem applyAll_cons (e : Edit) (t : List Edit) (r : Rec) :
     applyAll (e :: t) r = (e r).bind (applyAll t) := by
@@ -79,6 +85,7 @@ theorem applyAll_cons (e : Edit) (t : List Edit) (r : Rec) :
   | ok r1 => rfl
   | dropped => rw [foldl_bind_dropped]; rfl
   | panic => rw [foldl_bind_panic]; rfl
+  | fatal => rw [foldl_bind_fatal]; rfl
 
 theorem applyAll_nil (r : Rec) : applyAll [] r = .ok r := rfl
 
@@ -92,6 +99,7 @@ theorem applyAll_append (a b : List Edit) (r : Rec) :
     | ok r1 => simp [Outcome.bind, ih]
     | dropped => rfl
     | panic => rfl
+    | fatal => rfl
 
 theorem bind_ok {x : Outcome} {f : Rec → Outcome} {r' : Rec} (h : x.bind f = .ok r') :
     ∃ r1, x = .ok r1 ∧ f r1 = .ok r' := by
@@ -99,6 +107,7 @@ theorem bind_ok {x : Outcome} {f : Rec → Outcome} {r' : Rec} (h : x.bind f = .
   | ok r1 => exact ⟨r1, rfl, h⟩
   | dropped => simp [Outcome.bind] at h
   | panic => simp [Outcome.bind] at h
+  | fatal => simp [Outcome.bind] at h
 
 /-! ## frames: an edit that leaves an observation of the record unchanged -/
 
@@ -284,5 +293,85 @@ theorem cutSequence_keeps_attrs (a b : Int) : Keeps (·.attrs) (cutSequence a b)
     split at h
     · rename_i s hs; simp at h; subst h; exact subsequence_attrs hs
     · simp at h
+
+/-! ### library-driven workers: they only set attributes, under names fixed by the options -/
+
+theorem setAttribute_keeps_seq (k : String) (v : AVal) : Keeps (·.seq) (setAttribute k v) :=
+  fun _ _ h => (setAttribute_ok h).1
+theorem setAttribute_keeps_id (k : String) (v : AVal) (hk : k ≠ "id") : Keeps (·.id) (setAttribute k v) :=
+  fun _ _ h => ((setAttribute_ok h).2.1 hk).1
+theorem setAttribute_keeps_attr (k : String) (v : AVal) (k' : String) (hk : k' ≠ k) :
+    Keeps (fun r => r.attrs.lookup k') (setAttribute k v) := by
+  intro r r' h
+  obtain ⟨_, hn, hi⟩ := setAttribute_ok h
+  show r'.attrs.lookup k' = r.attrs.lookup k'
+  by_cases hid : k = "id"
+  · rw [(hi hid).1]
+  · rw [(hn hid).2, lookup_setKey]; simp [hk]
+
+/-- an edit `r ↦ setAttrs (g r) r` keeps an observation every `SetAttribute(key, _)` with `key` among
+the names `K` keeps, when `g` only proposes names of `K` -/
+theorem dynAttrs_keeps {α : Type} (obs : Rec → α) (g : Rec → List (String × AVal)) (K : List String)
+    (hK : ∀ r, ∀ kv ∈ g r, kv.1 ∈ K) (hobs : ∀ k ∈ K, ∀ v, Keeps obs (setAttribute k v)) :
+    Keeps obs (fun r => setAttrs (g r) r) := by
+  intro r r' h
+  exact foldl_bind_keeps obs (g r) (fun kv => setAttribute kv.1 kv.2)
+    (fun kv hkv => hobs kv.1 (hK r kv hkv) kv.2) r r' h
+
+theorem taxonAtRankAttrs_keys (O : Oracles) (rank : String) (r : Rec) :
+    ∀ kv ∈ taxonAtRankAttrs O rank r, kv.1 ∈ [rank ++ "_taxid", rank ++ "_name"] := by
+  intro kv h
+  unfold taxonAtRankAttrs at h
+  split at h
+  · simp at h
+  · simp only [List.mem_cons, List.not_mem_nil, or_false] at h
+    rcases h with h | h <;> simp [h]
+  · simp only [List.mem_cons, List.not_mem_nil, or_false] at h
+    rcases h with h | h <;> simp [h]
+
+theorem ahoCorasickAttrs_keys (O : Oracles) (r : Rec) :
+    ∀ kv ∈ ahoCorasickAttrs O r, kv.1 ∈ ["aho_corasick", "aho_corasick_Fwd", "aho_corasick_Rev"] := by
+  intro kv h
+  unfold ahoCorasickAttrs at h
+  simp only at h
+  split at h
+  · simp only [List.mem_cons, List.not_mem_nil, or_false] at h
+    rcases h with h | h | h <;> simp [h]
+  · simp at h
+
+theorem matchPatternAttrs_keys (O : Oracles) (pattern name : String) (e : Int) (indel : Bool) (r : Rec) :
+    ∀ kv ∈ matchPatternAttrs O pattern name e indel r,
+      kv.1 ∈ [(patternSlots name).1, (patternSlots name).2.1, (patternSlots name).2.2.1, (patternSlots name).2.2.2] := by
+  intro kv h
+  unfold matchPatternAttrs at h
+  simp only at h
+  split at h
+  · simp only [List.mem_cons, List.not_mem_nil, or_false] at h
+    rcases h with h | h | h | h <;> simp [h]
+  · split at h
+    · simp only [List.mem_cons, List.not_mem_nil, or_false] at h
+      rcases h with h | h | h | h <;> simp [h]
+    · simp at h
+
+theorem addTaxonAtRank_keeps {α : Type} (obs : Rec → α) (O : Oracles) (ranks : List String)
+    (hobs : ∀ rank ∈ ranks, ∀ k ∈ [rank ++ "_taxid", rank ++ "_name"], ∀ v, Keeps obs (setAttribute k v)) :
+    Keeps obs (addTaxonAtRank O ranks) :=
+  foldl_bind_keeps obs ranks (fun rank r => setAttrs (taxonAtRankAttrs O rank r) r)
+    (fun rank hr => dynAttrs_keeps obs (taxonAtRankAttrs O rank) _ (taxonAtRankAttrs_keys O rank) (hobs rank hr))
+
+theorem setFromTaxonomy_keeps {α : Type} (obs : Rec → α) (key : String) (f : Rec → Option String)
+    (hobs : ∀ v, Keeps obs (setAttribute key v)) : Keeps obs (setFromTaxonomy key f) := by
+  intro r r' h
+  unfold setFromTaxonomy at h
+  split at h
+  · exact hobs _ r r' h
+  · simp at h
+
+theorem mem_libraryKeys_rank (o : AnnotOpts) (rank : String) (h : rank ∈ o.taxonAtRank) :
+    ∀ k ∈ [rank ++ "_taxid", rank ++ "_name"], k ∈ libraryKeys o := by
+  intro k hk
+  unfold libraryKeys
+  simp only [List.mem_append, List.mem_flatMap]
+  exact Or.inl (Or.inl (Or.inl (Or.inl (Or.inl ⟨rank, h, hk⟩))))
 
 end ObiVerif.Annotate
